@@ -287,6 +287,12 @@ func (i *dbIter) prev() bool {
 			}
 		}
 	}
+	// The raw iterator may have stopped on an error rather than at the first
+	// entry: the pair found so far is then not known to be the newest one.
+	if err := i.iter.Error(); err != nil {
+		i.setErr(err)
+		return false
+	}
 	if del {
 		i.dir = dirSOI
 		i.iterErr()
